@@ -236,8 +236,9 @@ class ConvexSpheropolyhedron(Shape3D):
         point_plane_distances = self.polyhedron._point_plane_distances(points)
         in_polyhedron = np.all(point_plane_distances <= 0, axis=1)
 
-        # Exit early if all points are inside the convex polyhedron
-        if np.all(in_polyhedron):
+        # Exit early if all points are inside the convex polyhedron, or if
+        # there is no rounding (the faces cannot be extruded by zero)
+        if np.all(in_polyhedron) or self.radius == 0:
             return in_polyhedron
 
         # Compute extrusions of the faces
